@@ -199,6 +199,37 @@ def run_kani_harness(h, tier, seed):
 
 
 # --------------------------------------------------------------------------------------------
+# Engine M (MIR -> SMT)
+# --------------------------------------------------------------------------------------------
+def run_smt(e, tier, seed):
+    sys.path.insert(0, os.path.join(ROOT, "engine_m"))
+    import queries as Q
+    t0 = time.time()
+    q = Q.run_query(e["query"])
+    r = {"wall_s": time.time() - t0, "failed": [], "playback": [], "checks": 1, "success": 0, "unreachable": 0,
+         "covers_total": 1, "covers_sat": 1, "functions": ["rln::" + f for f in q.get("functions_encoded", [])], "stubs": [],
+         "queries": 1, "solvers": q.get("solvers"), "time_s": sum(v.get("seconds", 0) for v in q.get("solvers", {}).values() if isinstance(v, dict))}
+    st = q["status"]
+    if st == "unsat":
+        r["verdict"] = "SUCCESSFUL"
+        r["success"] = 1
+    elif st == "sat":
+        r["verdict"] = "FAILED"
+        r["failed"] = [{"check": e["query"], "description": e.get("violation_text", "the negated property is satisfiable"), "location": "engine_m"}]
+        model = q.get("model") or {}
+        if model and e.get("tape_from_model"):
+            r["playback"] = [{"check": e["query"], "vals": e["tape_from_model"](model)}]
+        r["model"] = model
+    else:
+        r["verdict"] = None
+        r["error"] = "SMT query %s: %s %s" % (e["query"], st, json.dumps(q.get("solvers")))
+    return r
+
+
+registry.ENGINES["smt"] = run_smt
+
+
+# --------------------------------------------------------------------------------------------
 # native replay
 # --------------------------------------------------------------------------------------------
 _replay_built = {}
